@@ -17,11 +17,14 @@ pub struct Env {
     /// transport: the Ghidra plugin writes the project into a named pipe)
     #[serde(default)]
     pub pipe: bool,
+    /// the `--out` path already holds an older, longer result file when the run starts
+    #[serde(default)]
+    pub stale_out: bool,
 }
 
 impl Env {
     pub fn baseline() -> Env {
-        Env { entropy: 0, sched: "sticky".into(), io: "0".into(), pipe: false }
+        Env { entropy: 0, sched: "sticky".into(), io: "0".into(), pipe: false, stale_out: false }
     }
 }
 
@@ -316,12 +319,30 @@ pub fn run_cli(wd: &WorkDir, paths: &Paths, mode: &CliMode, env: &Env, lkm: bool
     let pipe = if env.pipe { std::fs::read(wd.p("w.json")).ok().and_then(|d| FilledPipe::new(&d)) } else { None };
     let pcode = pipe.as_ref().map_or_else(|| wd.p("w.json"), |p| p.path());
     let argv = mode.argv(&wd.p("w.elf"), &pcode, &wd.p("out.txt"), &cfg);
-    run_raw(wd, paths, &argv, env)
+    let stale = if env.stale_out && mode.out_file {
+        // what an earlier, bigger analysis left behind at the same path
+        let mut old = String::from("[\n");
+        for i in 0..40 {
+            old.push_str(&format!("  {{\n    \"name\": \"CWE676\",\n    \"version\": \"0.1\",\n    \"addresses\": [\"0040{i:04x}\"],\n    \"tids\": [],\n    \"symbols\": [],\n    \"other\": [],\n    \"description\": \"stale entry {i}\"\n  }},\n"));
+        }
+        old.push_str("]\n");
+        Some(old)
+    } else {
+        None
+    };
+    run_raw_with(wd, paths, &argv, env, stale.as_deref())
 }
 
 pub fn run_raw(wd: &WorkDir, paths: &Paths, argv: &[String], env: &Env) -> RunOut {
+    run_raw_with(wd, paths, argv, env, None)
+}
+
+fn run_raw_with(wd: &WorkDir, paths: &Paths, argv: &[String], env: &Env, stale_out: Option<&str>) -> RunOut {
     for f in ["stdout.txt", "stderr.txt", "out.txt", "stats.json", "events.json"] {
         let _ = std::fs::remove_file(wd.p(f));
+    }
+    if let Some(old) = stale_out {
+        let _ = std::fs::write(wd.p("out.txt"), old);
     }
     let t_start = std::time::Instant::now();
     if wd.use_server {
